@@ -97,6 +97,7 @@ class Rec:
         self.merged_from = None  # {"src": idx, "src_ncommitted": n, "base_sha": sha} for merge targets
         self.inflight = None  # set while a commit is being performed
         self.truncating = False  # set while the record is being replaced (mode 'w')
+        self.scls = cls  # class used for the current session (records may be opened with either)
         self.exts = None  # expected manifest_exts (mf)
         self.gen = 0  # incremented when the record is re-created ('w')
 
@@ -184,6 +185,9 @@ class World:
 
     def klass(self, r):
         return self.IH5MFRecord if r.cls == "mf" else self.IH5Record
+
+    def session_klass(self, r):
+        return self.IH5MFRecord if r.scls == "mf" else self.IH5Record
 
     def path(self, r):
         return os.path.join(self.sut, r.name)
@@ -416,11 +420,15 @@ class World:
         self.protect(r)
         self.save_carry()
         self.containers_seen = max(self.containers_seen, len(r.disk))
-        if r.cls == "mf":
+        if r.scls == "mf":
+            if r.cls != "mf":
+                r.cls = "mf"  # committing through IH5MFRecord turns it into a manifest record
             if opened:
                 self.check_manifest(r, shape_only=shape_only)
             else:
                 self.check_manifest_closed(r)
+        else:
+            r.exts = None  # committed without manifest: the chain of manifests is interrupted
         self.check_merge_descendants(r)
 
     # -------------------------------------------------------------- carry (crash epochs)
@@ -512,7 +520,10 @@ class World:
         mode = op["mode"]
         by = op.get("by", "name")
         perm = op.get("perm")
-        cls = self.klass(r)
+        r.scls = op.get("as") or r.cls
+        if r.scls != r.cls:
+            self.count_fault("open_with_other_record_class")
+        cls = self.session_klass(r)
         before = self.listing()
         was_present = r.exists
         last_committed = r.disk[-1]["committed"] if r.disk else None
@@ -578,6 +589,8 @@ class World:
                 raise Violation("C03", "open-touched-sibling", f"open of '{r.name}' (mode {mode!r}) changed file '{fn}' of another record", shape=mode)
         r.obj = obj
         r.ro = mode == "r"
+        if expect in ("create", "truncate"):
+            r.cls = r.scls
         if expect == "create":
             r.disk = [{"file": f"{r.name}.ih5", "committed": False}]
             self.new_ref(r)
@@ -720,7 +733,7 @@ class World:
             return "skip"
         expect_ok = r.writable
         kwargs = {}
-        if r.cls == "mf" and op.get("exts") is not None:
+        if r.scls == "mf" and op.get("exts") is not None:
             kwargs["manifest_exts"] = op["exts"]
         if expect_ok:
             self.pre_commit(r)
@@ -814,7 +827,7 @@ class World:
         expect_ok = (not uncommitted) and (not t.exists)
         before = self.listing()
         meta_before = [m.json() for m in r.obj.ih5_meta]
-        mf_before = r.obj.manifest.json() if (r.cls == "mf" and r.obj._manifest is not None) else None
+        mf_before = r.obj.manifest.json() if (r.scls == "mf" and r.obj._manifest is not None) else None
         from pathlib import Path
 
         if not t.exists:
@@ -852,18 +865,19 @@ class World:
             raise Violation("C05", "merge-outcome", "merge succeeded onto an existing target record")
         if [m.json() for m in r.obj.ih5_meta] != meta_before:
             raise Violation("C05", "source-meta-changed", "ih5_meta of the still-open source differs before/after merge_files", shape="ih5_meta")
-        if r.cls == "mf" and mf_before is not None and r.obj.manifest.json() != mf_before:
+        if r.scls == "mf" and mf_before is not None and r.obj.manifest.json() != mf_before:
             raise Violation("C05", "source-meta-changed", "manifest of the still-open source differs before/after merge", shape="manifest")
         self.check_view(r, "C05", "source-view-changed", extra="source after merge")
         tfile = f"{t.name}.ih5"
-        exp_new = [tfile] + ([tfile + "mf.json"] if r.cls == "mf" else [])
+        exp_new = [tfile] + ([tfile + "mf.json"] if r.scls == "mf" else [])
         diff = self.listing_diff(before, after)
         if sorted(diff) != sorted("+" + f for f in exp_new):
             raise Violation("C05", "merge-files", f"merge changed {diff}, expected {['+' + f for f in exp_new]}")
         if os.path.basename(str(res)) != tfile:
             raise Violation("C05", "merge-result", f"merge_files returned {res}")
         # model of the merged record
-        t.cls = r.cls
+        t.cls = r.scls
+        t.scls = r.scls
         t.disk = [{"file": tfile, "committed": True}]
         t.gen += 1
         r.ref.flush()
@@ -898,7 +912,7 @@ class World:
             want, _ = V.dump_tree(r.ref)
             if errs or got != want:
                 raise Violation("C05", "merged-view", f"merged tree differs from the source's overlay view: {errs[:2] or V.diff_dumps(want, got)}")
-            if r.cls == "mf":
+            if r.scls == "mf" and mf_before is not None:
                 if m.manifest.json() != r.obj.manifest.json():
                     raise Violation("C05", "merged-manifest", "manifest of the merged record is not the source's latest manifest")
         finally:
@@ -1143,10 +1157,12 @@ class IH5StoreEngine:
 
     # ---------------- generation
 
-    def generate(self, prop, tag, tier):
+    def generate(self, prop, tag, tier, mix=None):
         rng = Rng(tag)
         g = rng["gen"]
         profile = {"C01": "overlay", "C02": "immutable", "C03": "restart", "C05": "merge"}.get(prop, "overlay")
+        if mix is None:
+            mix = profile in ("immutable", "restart", "merge")
         cfg = {"profile": profile, "nav_every": g.choice([1, 3, 3, 5])}
         nrec = 1
         if profile in ("restart", "immutable") and g.random() < 0.6:
@@ -1183,6 +1199,8 @@ class IH5StoreEngine:
             op = {"op": "open", "rec": i, "mode": mode, "by": by or ("list" if s["exists"] and g.random() < 0.35 else "name")}
             if g.random() < 0.7:
                 op["perm"] = g.randrange(1000)
+            if mix and g.random() < 0.2:
+                op["as"] = g.choice(["ih5", "mf"])
             emit(op)
             # shadow update (expected semantics)
             if op["by"] == "list":
